@@ -101,9 +101,9 @@ Proof.
   - cbn [snd]. intros [H|[]]; subst; exact Logic.I.
   - destruct (c_st (get_conn (s_conns s) c)); cbn [snd]; intros [H|[]]; subst; exact Logic.I.
   - cbn [snd]. intros [H|[]]; subst; exact Logic.I.
-  - destruct (is_idle c s); [destruct (id_lookup (s_ids s) i) as [ser|]; [destruct (getjob (s_jobs s) ser) as [j|]; [destruct (j_done j && negb (done_pending ser (s_hub s))) eqn:ED|]|]|];
+  - destruct (is_idle c s); [destruct (id_lookup (s_ids s) i) as [ser|]; [destruct (getjob (s_jobs s) ser) as [j|]; [destruct (j_done j) eqn:ED|]|]|];
       cbn [snd]; intros [H|[]]; subst; try exact Logic.I.
-    cbn [good_delivery]. apply andb_true_iff in ED. apply ED.
+    cbn [good_delivery]. exact ED.
   - cbn [snd]. intros [H|[]]; subst; exact Logic.I.
   - destruct (id_lookup (s_ids s) i); cbn [snd]; intros [H|[]]; subst; exact Logic.I.
   - cbn [snd]. intros [H|[]]; subst; exact Logic.I.
@@ -214,7 +214,7 @@ Proof.
   - destruct (c_st (get_conn (s_conns s) c)); apply fin_le_refl.
   - apply fin_le_refl.
   - destruct (is_idle c s); [|apply fin_le_refl]. destruct (id_lookup (s_ids s) i) as [ser|]; [|apply fin_le_refl].
-    destruct (getjob (s_jobs s) ser) as [j|]; [|apply fin_le_refl]. destruct (j_done j && negb (done_pending ser (s_hub s))); [destruct (j_drop j && id_is (s_ids s) (j_id j) ser)|]; apply fin_le_refl.
+    destruct (getjob (s_jobs s) ser) as [j|]; [|apply fin_le_refl]. destruct (j_done j); [destruct (j_drop j && id_is (s_ids s) (j_id j) ser)|]; apply fin_le_refl.
   - apply fin_le_refl.
   - destruct (id_lookup (s_ids s) i) as [ser|]; [|apply fin_le_refl]. cbn [fst]. sf. intros x j E D.
     rewrite getjob_setjob by (intros; cbn; assumption). destruct (x =? ser) eqn:Ex.
@@ -259,23 +259,23 @@ Qed.
 
 Lemma wait_done_immediate : forall s c i ser j,
   is_idle c s = true -> id_lookup (s_ids s) i = Some ser -> getjob (s_jobs s) ser = Some j -> j_done j = true ->
-  done_pending ser (s_hub s) = false -> j_drop j = false ->
+  j_drop j = false ->
   step s (Wait c i) = (s, [OReleased c j]).
-Proof. intros s c i ser j EI El E D P Dr. cbn [step]. rewrite EI, El, E, D, P, Dr. reflexivity. Qed.
+Proof. intros s c i ser j EI El E D Dr. cbn [step]. rewrite EI, El, E, D, Dr. reflexivity. Qed.
 
 (* ... and with the drop flag the job is handed over and its id is forgotten - provided the id still names THIS
-   job object (jobs.py:229, b6f8314) *)
+   job object (jobs.py:234, b6f8314) *)
 Lemma wait_done_dropped : forall s c i ser j,
   is_idle c s = true -> id_lookup (s_ids s) i = Some ser -> getjob (s_jobs s) ser = Some j -> j_done j = true ->
-  done_pending ser (s_hub s) = false -> j_drop j = true -> id_is (s_ids s) (j_id j) ser = true ->
+  j_drop j = true -> id_is (s_ids s) (j_id j) ser = true ->
   step s (Wait c i) = (set_ids (id_del (s_ids s) (j_id j)) s, [OReleased c j]).
-Proof. intros s c i ser j EI El E D P Dr Is. cbn [step]. rewrite EI, El, E, D, P, Dr, Is. reflexivity. Qed.
+Proof. intros s c i ser j EI El E D Dr Is. cbn [step]. rewrite EI, El, E, D, Dr, Is. reflexivity. Qed.
 
 Lemma wait_undone_blocks : forall s c i ser j,
   is_idle c s = true -> id_lookup (s_ids s) i = Some ser -> getjob (s_jobs s) ser = Some j -> j_done j = false ->
   snd (step s (Wait c i)) = [OBlocked] /\ c_st (get_conn (s_conns (fst (step s (Wait c i)))) c) = BWait ser.
 Proof.
-  intros s c i ser j EI El E D. cbn [step]. rewrite EI, El, E, D. cbn [andb fst snd]. split; [reflexivity|].
+  intros s c i ser j EI El E D. cbn [step]. rewrite EI, El, E, D. cbn [fst snd]. split; [reflexivity|].
   sf. pose proof (get_put_same (s_conns s) (mkConn c (BWait ser) (c_run (get_conn (s_conns s) c)))) as G. sf. rewrite G. reflexivity.
 Qed.
 
